@@ -8,7 +8,9 @@ def _fixes():
     import os
     p = os.path.join(os.path.dirname(os.path.dirname(os.path.abspath(__file__))), 'known_findings.txt')
     return [m.group(1) for m in (_re.match(r'fixed: property=\S+ ([0-9a-f]{7,})', ln) for ln in open(p)) if m]
-, os
+
+
+import os
 ROOT = os.path.dirname(os.path.dirname(os.path.abspath(__file__)))
 
 TRUST = ("Trusted: CPython 3.12, z3 5.1, CrossHair 0.0.110's models of int/list/dict, the stubs listed in the evidence "
